@@ -260,7 +260,9 @@ fn indexed_family_part(ctx: &Ctx) {
     for (bodies, fam) in [(&int_bodies, "int"), (&bool_bodies, "bool")] {
         for a in bodies.iter() {
             for b in bodies.iter() {
-                if key(a) != key(b) {
+                // Int-indexed: same former only (x + y vs x - y adds nothing); bool-indexed: every
+                // pair, so that one comparison operator is also set against another.
+                if fam == "int" && key(a) != key(b) {
                     continue;
                 }
                 idx += 1;
@@ -287,7 +289,7 @@ fn indexed_family_part(ctx: &Ctx) {
     }
     ctx.evaluated(total);
     ctx.exhaustive("indexed-family");
-    ctx.note("indexed-family: `a : p A` used at `p B` for every pair of same-former index expressions over {x, y, 1, 2} (p : int -> type or bool -> type, lambda-bound)");
+    ctx.note("indexed-family: `a : p A` used at `p B` for every pair of same-former integer index expressions and every pair of comparison index expressions over {x, y, 1, 2} (p : int -> type or bool -> type, lambda-bound)");
 }
 
 const REGRESSIONS: [&str; 4] = [
@@ -303,7 +305,7 @@ pub fn def(tier: Tier) -> CheckDef {
     CheckDef {
         id: "C03",
         level: "exploration",
-        rule: "type-directed generated programs, 70% of them perturbed by 1-2 type-breaking mutations at random nodes (12 kinds: a subterm replaced by a literal / type / lambda, wrapped in an operator, a condition, an application, ...), a third also erased (omitted annotations, `_`), plus every closed explicit program up to size 5 (quick) / 6 (thorough) over a small vocabulary (exhaustive), plus every program `(a : p A) => (r : p B = a; r)` for same-former index expressions A, B over {x, y, 1, 2} under a lambda-bound family p (exhaustive: conversion inside types); oracle = whenever gram accepts, an independent checker for explicit terms (R-core, conversion by NbE) must find the *elaborated* term well scoped and well typed with a type convertible with the reported one; and an explicit program that R-core rejects must be rejected by gram; the evidence counts, per typing rule, the programs both sides reject for that rule; non-trivial = accepted and perturbed, or accepted with an application and a binder, or an enumerated program of size >= 3; distinct by text",
+        rule: "type-directed generated programs, 70% of them perturbed by 1-2 type-breaking mutations at random nodes (12 kinds: a subterm replaced by a literal / type / lambda, wrapped in an operator, a condition, an application, ...), a third also erased (omitted annotations, `_`), plus every closed explicit program up to size 5 (quick) / 6 (thorough) over a small vocabulary (exhaustive), plus every program `(a : p A) => (r : p B = a; r)` for same-former integer (and all pairs of comparison) index expressions A, B over {x, y, 1, 2} under a lambda-bound family p (exhaustive: conversion inside types); oracle = whenever gram accepts, an independent checker for explicit terms (R-core, conversion by NbE) must find the *elaborated* term well scoped and well typed with a type convertible with the reported one; and an explicit program that R-core rejects must be rejected by gram; the evidence counts, per typing rule, the programs both sides reject for that rule; non-trivial = accepted and perturbed, or accepted with an application and a binder, or an enumerated program of size >= 3; distinct by text",
         assumptions: vec![
             "the typing rules are those of R-core (see C05); elaborated terms that still contain unresolved holes are outside the explicit checker's domain and are counted, not judged",
             "fuel exhaustion of the reference checker and aborts of gram's checker on divergent perturbed programs are inconclusive",
